@@ -795,7 +795,7 @@ def special_C14(seed, tier, model, deadline):
             hs = mutate_block(rng, rng.choice([REQ, REQ, HOSTED]), kind)
             ops.append({'op': 'recv', 'c': 0, 'data': wire.headers_frames(1, blk(REQ), end_stream=False)})
             sid = 1
-        hs = [(a, b) for a, b in hs if a != b'content-length' and len(a) > 0]
+        hs = [(a, b) for a, b in hs if a != b'content-length']
         args = dress(rng, hs)
         if kind == 'push':
             ops.append({'op': 'push_stream', 'c': 0, 'sid': sid, 'promised': 2, 'headers': args})
